@@ -26,13 +26,18 @@ python3 - "$WT" "./$PKG/" "$@" <<'PY'
 import json, subprocess, sys, os
 wt = sys.argv[1]; pk = sys.argv[2:]
 base = json.load(open("/root/.vp/BASELINE.json")); stable = set(base["stable_pass"])
-p = subprocess.run(["go","test","-json","-vet=off","-count=1","-timeout","20m"]+pk, cwd=wt, stdout=subprocess.PIPE, stderr=subprocess.DEVNULL, text=True)
 passed, pkgs = set(), set()
-for line in p.stdout.splitlines():
-    try: e = json.loads(line)
-    except Exception: continue
-    if e.get("Package"): pkgs.add(e["Package"])
-    if e.get("Action") == "pass" and e.get("Test"): passed.add("%s::%s" % (e["Package"], e["Test"]))
+for one in pk:
+    full = "com.tuntun.rangers/node/" + one.strip("./")
+    names = sorted({t.split("::")[1].split("/")[0] for t in stable if t.split("::")[0] == full})
+    pkgs.add(full)
+    if not names: continue
+    # only the pinned stable tests are run (some other tests of these packages hang for minutes at baseline)
+    p = subprocess.run(["go","test","-json","-vet=off","-count=1","-timeout","10m","-run","^(" + "|".join(names) + ")$", one], cwd=wt, stdout=subprocess.PIPE, stderr=subprocess.DEVNULL, text=True)
+    for line in p.stdout.splitlines():
+        try: e = json.loads(line)
+        except Exception: continue
+        if e.get("Action") == "pass" and e.get("Test"): passed.add("%s::%s" % (e["Package"], e["Test"]))
 want = {t for t in stable if t.split("::")[0] in pkgs}
 miss = sorted(want - passed)
 print("stable tests in touched packages: %d, passing with patch: %d" % (len(want), len(want & passed)))
